@@ -37,8 +37,13 @@ def names_for(rng, T, res):
         names = rng.sample([n for n in POOL if n != "2-clique"], T)
     else:
         names = rng.sample(POOL, T)
-        if rng.random() < 0.3:
+        r = rng.random()
+        if r < 0.25:
             names = ["n%d" % rng.randrange(1000) + "-" + str(i) for i in range(T)]
+        elif r < 0.35:
+            names = [10 + i for i in range(T)]                 # names are arbitrary labels: not even strings
+        elif r < 0.45:
+            names = [("clique", i + 2) for i in range(T)]
     if "2-clique" not in names:
         res.count("names_without_2-clique")
     elif names[0] != "2-clique":
